@@ -5,7 +5,6 @@
 
 use crate::wirecheck::{parse_ip, rfc1071_sum, Addr};
 
-pub const TCP_FIN: u8 = 0x01;
 pub const TCP_SYN: u8 = 0x02;
 pub const TCP_RST: u8 = 0x04;
 pub const TCP_PSH: u8 = 0x08;
@@ -361,6 +360,7 @@ pub fn classify_ethernet(f: &[u8]) -> Out {
 /// are little endian on the wire). Returns (dst_pan, dst_addr, src_addr, payload) with the
 /// addresses in transmission-reversed (= canonical big endian) order.
 pub struct Lowpan154 {
+    #[allow(dead_code)]
     pub dst_pan: Option<u16>,
     pub dst: Vec<u8>,
     pub src: Vec<u8>,
